@@ -92,6 +92,9 @@ structure ScJ where
   leafScripts : List LeafScriptJ
   batchScripts : List BatchScriptJ := []
   steps : List StepJ
+  /-- `[i, j]`: run number i and run number j are runs of two nodes that were configured with the same settings and
+      functions through different construction styles; node ids apart, their observations must be the same (C19) -/
+  pairs : List (List Nat) := []
   deriving FromJson, ToJson
 
 structure RunObsJ where
@@ -209,6 +212,24 @@ def orAll (l : List (String × Bool)) (k : String) (b : Bool) : List (String × 
   | (k', b') :: t => if k' = k then (k, b' || b) :: t else (k', b') :: orAll t k b
 
 def FUEL : Nat := 2000
+
+/-- an event with its node id replaced -/
+def relabelEv (f : NodeId → NodeId) : Ev → Ev
+  | .prep n v s => .prep (f n) v s
+  | .exec n v k a => .exec (f n) v k a
+  | .wait n v k d fi => .wait (f n) v k d fi
+  | .fb n v a e => .fb (f n) v a e
+  | .post n v s a b => .post (f n) v s a b
+  | .bprep n v s => .bprep (f n) v s
+  | .bexec n v i k a => .bexec (f n) v i k a
+  | .bwait n v i k d fi => .bwait (f n) v i k d fi
+  | .bfb n v i a e => .bfb (f n) v i a e
+  | .bpost n v s it sl => .bpost (f n) v s it sl
+
+/-- **C19** on a pair of runs: the same observation up to the node's identity -/
+def sameUpToNode (a b : RunObs) : Bool :=
+  a.trace.map (relabelEv fun _ => 0) == b.trace.map (relabelEv fun _ => 0) && a.out == b.out
+    && a.store.length == b.store.length
 
 /-- the batch-level view of a run whose root is a batch node (sequential / one-worker / schedule-independent) -/
 def batchViewOf (o : RunObs) : BatchView :=
@@ -337,6 +358,8 @@ def process (sc : ScJ) (obs : ObsJ) : Except String Verdict := do
   let mut specModel : List (String × Bool) := []
   let mut nontrivial : List (String × Bool) := []
   let mut modelRuns : List RunObsJ := []
+  let mut ios : Array RunObs := #[]
+  let mut ms : Array RunObs := #[]
   for st in sc.steps do
     match st.run, st.connect with
     | none, some c =>
@@ -366,6 +389,8 @@ def process (sc : ScJ) (obs : ObsJ) : Except String Verdict := do
       let io := if io.out == .ok "*" then (match m.out with | .ok a => { io with out := .ok a } | _ => io) else io
       let (io, m, flat, ref) := if wide then (canon io, canon m, canon flat, canon ref) else (io, m, flat, ref)
       agree := agree && (io == m)
+      ios := ios.push io
+      ms := ms.push m
       -- `c18Followed` reads visits off the callback trace: every leaf must have a prep callback (`C18.c18Followed_bridge`'s `hprep`)
       let allPrep := nodes.all fun p => match p.2 with | .leaf c => c.prepS != .absent | _ => true
       for (k, b) in judgeRun env ctx0 root vis cancelFree io flat ref allPrep do spec := andAll spec k b
@@ -402,6 +427,14 @@ def process (sc : ScJ) (obs : ObsJ) : Except String Verdict := do
       vis := r.2.1.visits
     | _, _ => throw "bad step"
   if !implRuns.isEmpty then throw "extra run observations"
+  if !sc.pairs.isEmpty then
+    let judgePairs (runs : Array RunObs) : Bool := sc.pairs.all fun p =>
+      match p with
+      | [i, j] => (match runs[i]?, runs[j]? with | some a, some b => sameUpToNode a b | _, _ => false)
+      | _ => false
+    spec := andAll spec "C19" (judgePairs ios)
+    specModel := andAll specModel "C19" (judgePairs ms)
+    nontrivial := orAll nontrivial "C19" true
   pure { agree, spec, specModel, nontrivial, model := modelRuns }
 where
   canon (o : RunObs) : RunObs :=
@@ -425,7 +458,7 @@ def verdictJson (v : Verdict) : Json :=
     ("nontrivial", kv v.nontrivial), ("model", toJson v.model)]
 
 def allKeys : List String :=
-  ["C01", "C02", "C03", "C04", "C05", "C06", "C07", "C08", "C09", "C10", "C11", "C17", "C18"]
+  ["C01", "C02", "C03", "C04", "C05", "C06", "C07", "C08", "C09", "C10", "C11", "C17", "C18", "C19"]
 
 def handle (sc obs : Json) : Json :=
   match fromJson? (α := ScJ) sc, fromJson? (α := ObsJ) obs with
